@@ -26,6 +26,7 @@ sys.set_int_max_str_digits(0)
 import pysnark.qaptools.backend as qb
 LOG = []
 CALLS = []
+MID = []
 _ac, _pv, _pb = qb.add_constraint, qb.privval, qb.pubval
 def _lc(s): return [[int(c), v] for c, v in s.sig]
 def add_constraint(v, w, y):
@@ -41,6 +42,7 @@ def pubval(val):
     return r
 qb.add_constraint, qb.privval, qb.pubval = add_constraint, privval, pubval
 import pysnark.runtime as rt
+rt.bitlength = 40
 from pysnark.runtime import PrivVal, PubVal, LinComb
 def _flat(s, out):
     if isinstance(s, (list, tuple)):
@@ -57,7 +59,7 @@ def subqap(name):
         return wrapped
     return deco
 def _dump():
-    json.dump(dict(log=LOG, calls=CALLS), open("log.json", "w"))
+    json.dump(dict(log=LOG, calls=CALLS, mid=MID), open("log.json", "w"))
 '''
 
 
@@ -82,23 +84,23 @@ def gen_script(rnd):
             elif c < 0.5:
                 st, f = "%s + %s * %d" % (x, y, rnd.randint(-3, 3)), "lin"
             elif c < 0.6:
-                st, f = "LinComb.from_bits((%s * %s + 1).to_bits())" % (x, x), "bits"
+                st, f = "LinComb.from_bits((%s * %s + 1 + a0 * 0).to_bits())" % (x, x), "bits"
             elif c < 0.68:
-                st, f = "(%s * %s + 7) // (%s * %s + 1)" % (x, x, y, y), "div"
+                st, f = "(%s * %s + 7 + a0 * 0) // (%s * %s + 1 + a0 * 0)" % (x, x, y, y), "div"
             elif c < 0.76:
-                st, f = "(%s * %s < %s * %s + 2) * %s" % (x, x, y, y, x), "cmp"
+                st, f = "(%s * %s + a0 * 0 < %s * %s + 2) * %s" % (x, x, y, y, x), "cmp"
             elif c < 0.8:
-                st, f = "(%s == %s) * %s" % (x, y, x), "eq(const-one-wire)"
+                st, f = "(%s + a0 * 0 == %s) * %s" % (x, y, x), "eq(const-one-wire)"
             elif c < 0.83:
-                st, f = "%s * 1\n    %s.assert_lt(1000)" % (x, x), "assert-int(const-one-wire)"
+                st, f = "%s * 1\n    (%s + a0 * 0).assert_lt(1000)" % (x, x), "assert-int(const-one-wire)"
             elif c < 0.86:
-                st, f = "%s + 0\n    %s.val()" % (x, x), "public-output-inside-function"
+                st, f = "%s + 0\n    (%s + a0 * 0).val()" % (x, x), "public-output-inside-function"
             elif c < 0.89:
                 st, f = "%s * 1\n    (%s * %s - %s * %s).assert_zero()\n    (%s * %s - %s * %s).assert_zero()" % (x, x, y, x, y, x, y, x, y), "duplicate-equation"
-                st = "%s * 1\n    _d = %s * %s\n    (_d - %s).assert_eq(_d - %s)\n    (_d - %s).assert_eq(_d - %s)" % (x, x, y, y, y, y, y)
+                st = "%s * 1\n    _d = %s * %s + a0 * 0\n    (_d - %s).assert_eq(_d - %s)\n    (_d - %s).assert_eq(_d - %s)" % (x, x, y, y, y, y, y)
             elif funs and c < 0.95:
                 g, gar, gres = rnd.choice(funs)
-                st = "%s(%s)%s" % (g, ", ".join(rnd.choice(names) for _ in range(gar)), "[0]" if gres > 1 else "")
+                st = "%s(%s)%s" % (g, ", ".join((rnd.choice(names) + (" + a0 * 0" if ai == 0 else "")) for ai in range(gar)), "[0]" if gres > 1 else "")
                 if gres == 0:
                     st = "%s * 1\n    %s" % (x, st)
                 f = "nested-call"
@@ -118,14 +120,16 @@ def gen_script(rnd):
         lines.extend(body)
         if rnd.random() < 0.15:
             # an assertion-only sub-circuit: no return value
-            lines.append("    (%s * %s).assert_eq(%s * %s)" % (names[0], names[-1], names[-1], names[0]))
+            lines.append("    (%s * %s + a0 * 0).assert_eq(%s * %s)" % (names[0], names[-1], names[-1], names[0]))
             lines.append("    return None")
             funs.append(("f%d" % k, ar, 0))
             shapes.add("no-return-value")
             continue
         lines.append("    return %s" % (res[0] if nres == 1 else "[" + ", ".join(res) + "]"))
         funs.append(("f%d" % k, ar, nres))
-    vals = [rnd.choice([0, 1, 2, 3, 5, 7, -1, -4, 12, p + 2, p - 1, -p - 3, (1 << 260) + 5]) if rnd.random() < 0.25 else rnd.randint(0, 9) for _ in range(rnd.randint(2, 4))]
+    ring_only = not (fam & {"bits", "div", "cmp", "assert-int(const-one-wire)"})
+    hostile = [0, 1, 2, 3, 5, 7, -1, -4, 12] + ([p + 2, p - 1, -p - 3, (1 << 260) + 5] if ring_only else [])
+    vals = [rnd.choice(hostile) if rnd.random() < 0.25 else rnd.randint(0, 9) for _ in range(rnd.randint(2, 4))]
     names = []
     for i, v in enumerate(vals):
         lines.append("x%d = %s(%d)" % (i, "PubVal" if rnd.random() < 0.3 else "PrivVal", v))
@@ -148,9 +152,9 @@ def gen_script(rnd):
         if funs and rnd.random() < 0.7:
             g, gar, gres = rnd.choice(funs)
             args = []
-            for _ in range(gar):
+            for ai in range(gar):
                 x = rnd.choice(names)
-                c = rnd.random()
+                c = rnd.random() * (0.85 if ai == 0 else 1.0)      # a0 is always a circuit value (bodies call methods on it)
                 if c < 0.45:
                     args.append(x)
                     shapes.add("single")
@@ -175,17 +179,17 @@ def gen_script(rnd):
         names.append("r%d" % j)
     if rnd.random() < 0.2:
         # the proving step is not a one-shot: an explicit prove() in the middle, the exit hook proves again at the end
-        lines.append("qb.prove()")
+        lines.append("try:\n    qb.prove()\nexcept Exception as _e:\n    MID.append(repr(_e))")
         shapes.add("explicit-prove-midway")
         x, y = rnd.choice(names), rnd.choice(names)
         lines.append("mid = %s * %s" % (x, y))
         names.append("mid")
     for j in range(rnd.randint(0, 2)):
-        lines.append("o%d = (%s).val()" % (j, rnd.choice(names)))
+        lines.append("o%d = (%s + x0 * 0).val()" % (j, rnd.choice(names)))
     if rnd.random() < 0.6:
         # activity after the last public value / block declaration (nothing flushes it)
         x, y = rnd.choice(names), rnd.choice(names)
-        lines.append("tail = %s * %s + %s" % (x, y, x))
+        lines.append("tail = %s * %s + %s + x0 * 0" % (x, y, x))
         lines.append("(tail - tail).assert_zero()")
         shapes.add("tail-after-last-flush")
     src = "\n".join(lines) + "\n_dump()\n"
@@ -208,6 +212,9 @@ def main():
                 R.violation("digest-collision", "digest %s stands for two different equation sets" % d)
             digests[d] = h
         R.merge(res)
+    if R.counters.get("script_raised_before_end", 0) * 5 > R.counters.get("programs_validated", 0):
+        R.inconc("more than a sixth of the generated scripts raised before their end (%d of %d): the workload is not what it is meant to be"
+                 % (R.counters.get("script_raised_before_end", 0), R.counters.get("script_raised_before_end", 0) + R.counters.get("programs_validated", 0)))
     R.extra["programs"] = R.counters.get("programs_validated", 0)
     R.extra["disagreements_checked"] = R.counters.get("comparisons", 0)
     R.extra["distinct_digests"] = len(digests)
